@@ -575,7 +575,7 @@ func c10removal(p *core.Prog, u *ssa.Function) (bool, string) {
 	for _, fn := range fns {
 		core.Instrs(fn, func(ins ssa.Instruction) {
 			if call, ok := ins.(*ssa.Call); ok && core.IsBuiltin(&call.Call, "append") && len(call.Call.Args) == 2 {
-				if sl, isSl := call.Call.Args[0].(*ssa.Slice); isSl && sl.Max != nil && sl.High == sl.Max {
+				if sl, isSl := core.Unwrap(call.Call.Args[0]).(*ssa.Slice); isSl && sl.Max != nil && sl.High == sl.Max {
 					app = call
 				}
 			}
@@ -584,9 +584,9 @@ func c10removal(p *core.Prog, u *ssa.Function) (bool, string) {
 	if app == nil {
 		return true, "no capacity-limited prefix append (the removal is written differently; R2 judges the stored value)"
 	}
-	pre := app.Call.Args[0].(*ssa.Slice)
+	pre := core.Unwrap(app.Call.Args[0]).(*ssa.Slice)
 	idx := pre.High
-	tail, isSl := app.Call.Args[1].(*ssa.Slice)
+	tail, isSl := core.Unwrap(app.Call.Args[1]).(*ssa.Slice)
 	if !isSl || tail.High != nil || core.Path(tail.X) != core.Path(pre.X) {
 		return false, "the removal does not append the rest of the same list after the prefix"
 	}
